@@ -48,7 +48,7 @@ pub fn gen_len(t: &mut Tape, bias: u32) -> u64 {
     }
 }
 
-const OPAQUES: &[&str] = &["foo", "a, b", " ", "", "x y", "0123456789abcdef:10:5e0c:0", "W/", "é"];
+const OPAQUES: &[&str] = &["foo", "a, b", " ", "", "x y", "0123456789abcdef:10:5e0c:0", "W/", "é", "v1\\", "a\\b", "\\\\", "*", "a,b"];
 
 pub fn gen_etag(t: &mut Tape) -> Option<Vec<u8>> {
     match t.draw(5) {
@@ -439,10 +439,13 @@ pub fn gen_request(t: &mut Tape, meta: &Meta, now_ns: u128, k: &ReqKnobs) -> Req
     p.method = match k.methods {
         0 => "GET".to_string(),
         1 => if t.chance(1, 6) { "HEAD" } else { "GET" }.to_string(),
-        _ => ["GET", "GET", "HEAD", "POST", "PUT", "OPTIONS", "DELETE", "PATCH", "PROPFIND", "get", "G!"]
-            [t.draw(11) as usize]
+        _ => ["GET", "GET", "HEAD", "POST", "PUT", "OPTIONS", "DELETE", "PATCH", "PROPFIND", "get", "G!", "CONNECT", "TRACE", "head", "GETX", "M-SEARCH", "a.b~c|d^e_f`g#h$i%j&k'l*m+n"]
+            [t.draw(17) as usize]
             .to_string(),
     };
+    if Method::from_bytes(p.method.as_bytes()).is_err() {
+        p.method = "PROPFIND".to_string(); // the http crate is stricter than RFC 7230's tchar
+    }
     let l = meta.len;
     let want_range = match k.ranges {
         0 => false,
@@ -450,7 +453,10 @@ pub fn gen_request(t: &mut Tape, meta: &Meta, now_ns: u128, k: &ReqKnobs) -> Req
         _ => true,
     };
     if want_range {
-        let n = if k.ranges == 2 {
+        let n = if k.hostile && t.chance(1, 24) {
+            // very long range sets (spilling any inline storage)
+            40 + t.draw(260)
+        } else if k.ranges == 2 {
             2 + t.draw(if crate::core::deep() { 14 } else { 7 })
         } else {
             [1u32, 1, 1, 2, 3, 5][t.draw(6) as usize]
